@@ -84,6 +84,8 @@ type OptSpec struct {
 	Valid       []string `json:"valid,omitempty"`
 	DynValues   []string `json:"dyn_values,omitempty"`  // returned (prefix-filtered) by a SuggestedValuesFn
 	UseVar      bool     `json:"use_var,omitempty"`     // define through the *Var form
+	PreFill     bool     `json:"prefill,omitempty"`     // multi-valued *Var target already holds entries when it is handed to the definition (C20 only: no model behind it)
+	PreSet      []string `json:"preset,omitempty"`      // SetValue(name, PreSet...) right after the definition, before Parse (C06 only: no model behind it)
 	SetCalled   bool     `json:"set_called,omitempty"`  // opt.SetCalled(true) modifier
 	AliasSplit  bool     `json:"alias_split,omitempty"` // one Alias() modifier per alias instead of a single call
 }
@@ -134,10 +136,11 @@ type CmdSpec struct {
 // ProgSpec is a complete program definition plus the environment it is built in.
 type ProgSpec struct {
 	Root         CmdSpec           `json:"root"`
-	Mode         int               `json:"mode"`                // 0 Normal, 1 Bundling, 2 SingleDash
-	ModeLate     bool              `json:"mode_late,omitempty"` // SetMode is called after all commands have been declared
-	UnknownMode  int               `json:"unknown"`             // 0 Fail, 1 Warn, 2 Pass
-	RequireOrder bool              `json:"require_order"`       // on the root, before commands
+	Mode         int               `json:"mode"`                     // 0 Normal, 1 Bundling, 2 SingleDash
+	ModeLate     bool              `json:"mode_late,omitempty"`      // SetMode is called after all commands have been declared
+	MapKeysLower bool              `json:"map_keys_lower,omitempty"` // SetMapKeysToLower on the program (C06 only)
+	UnknownMode  int               `json:"unknown"`                  // 0 Fail, 1 Warn, 2 Pass
+	RequireOrder bool              `json:"require_order"`            // on the root, before commands
 	Help         string            `json:"help,omitempty"`
 	HelpAliases  []string          `json:"help_aliases,omitempty"`
 	Env          map[string]string `json:"env,omitempty"`
